@@ -313,9 +313,10 @@ func (v *Validator) expandFileArgs(args []string) ([]string, error) {
 			if err != nil {
 				return nil, err
 			}
-		} else if !looksLikeSQL(arg) && (strings.Contains(arg, "*") || strings.Contains(arg, "?") || strings.Contains(arg, "[")) {
+		} else if !looksLikeSQL(arg) && !fileExists(arg) && (strings.Contains(arg, "*") || strings.Contains(arg, "?") || strings.Contains(arg, "[")) {
 			// Only treat as glob pattern if it doesn't look like SQL
 			// This prevents "SELECT * FROM" from being treated as a glob pattern
+			// (and a file that exists under exactly this name is that file: c[1].sql)
 			matches, err := filepath.Glob(arg)
 			if err != nil {
 				return nil, err
@@ -328,6 +329,12 @@ func (v *Validator) expandFileArgs(args []string) ([]string, error) {
 	}
 
 	return files, nil
+}
+
+// fileExists reports whether a file of exactly this name exists.
+func fileExists(path string) bool {
+	info, err := os.Stat(path)
+	return err == nil && !info.IsDir()
 }
 
 // isDirectory checks if the given path is a directory
